@@ -71,6 +71,22 @@ Section Line.
         let l := vscale O (ndiv O h_ k_) e in
         let sign := if nltb O (n0 O) (vdot O h k) then nofZ O (-1) else nofZ O 1 in
         Some (vadd O p0 (vscale O sign l)).
+  (* the same routine written without square roots (tests on k.k and h.h, step -(h.k / k.k) e): an equivalent form of the
+     algorithm, proved equal to intersect_lines over the reals in P_line.intersect_lines_rational_eq; the traced ties use
+     it when the code does not take the norms *)
+  Definition intersect_lines_rational (p0 q0 p1 q1 : vec3 F) : option (vec3 F) :=
+    let e := vsub O p0 q0 in
+    let f := vsub O p1 q1 in
+    if veqb O p0 p1 || veqb O p0 q1 then Some p0
+    else if veqb O q0 p1 || veqb O p0 q1 then Some q0
+    else
+      let g := vsub O p0 p1 in
+      let h := vcross O f g in
+      let k := vcross O f e in
+      if neqb O (vdot O k k) (n0 O) then None
+      else if neqb O (vdot O h h) (n0 O) then Some p0
+      else if negb (neqb O (vdot O g k) (n0 O)) then None
+      else Some (vsub O p0 (vscale O (ndiv O (vdot O h k) (vdot O k k)) e)).
   Definition line_intersect_line (l l' : line F) : option (vec3 F) :=
     intersect_lines (fst (reference_points l)) (snd (reference_points l))
                     (fst (reference_points l')) (snd (reference_points l')).
